@@ -1,0 +1,141 @@
+//go:build verif
+
+// Contracts (machine-checked specifications) for the forwarder component, read by /verif's govc.
+// This file contains comments only and compiles to nothing with or without the tag.
+
+package forwarder
+
+// ---------------------------------------------------------------------------------------------
+// Paused protocols and cross-chain destinations (C08)
+// ---------------------------------------------------------------------------------------------
+
+// The pause sets are the contents of the two key sets of the component.
+//@ macro protoPaused(f, p) = ks_i32[f.pausedProtocols][p]
+//@ macro ccPaused(f, p, c) = ks_pair[f.pausedCrossChains][p][c]
+//@ macro protoSetIs(f, p, v) = ks_i32 == ks1set(old(ks_i32), f.pausedProtocols, p, v)
+//@ macro ccSetIs(f, p, c, v) = ks_pair == ks2set(old(ks_pair), f.pausedCrossChains, p, c, v)
+
+//@ func (f *Forwarder) IsProtocolPaused(ctx, protocolID) (paused, err)
+//@   requires[inv] f != nil
+//@   ensures[C08] err == nil ==> paused == protoPaused(f, protocolID)
+
+//@ func (f *Forwarder) IsCrossChainPaused(ctx, ccID) (paused, err)
+//@   requires[inv] f != nil
+//@   ensures[C08] err == nil ==> paused == ccPaused(f, ccID.ProtocolId, ccID.CounterpartyId)
+
+//@ func (f *Forwarder) SetPausedProtocol(ctx, protocolID) (err)
+//@   requires[inv] f != nil
+//@   modifies ks_i32
+//@   ensures[C08] err == nil ==> !old(protoPaused(f, protocolID)) && protoSetIs(f, protocolID, true)
+//@   ensures[C08] err != nil ==> ks_i32 == old(ks_i32)
+//@   ensures[C08] old(protoPaused(f, protocolID)) ==> err != nil
+
+//@ func (f *Forwarder) SetUnpausedProtocol(ctx, protocolID) (err)
+//@   requires[inv] f != nil
+//@   modifies ks_i32
+//@   ensures[C08] err == nil ==> old(protoPaused(f, protocolID)) && protoSetIs(f, protocolID, false)
+//@   ensures[C08] err != nil ==> ks_i32 == old(ks_i32)
+//@   ensures[C08] !old(protoPaused(f, protocolID)) ==> err != nil
+
+//@ func (f *Forwarder) SetPausedCrossChain(ctx, ccID) (err)
+//@   requires[inv] f != nil
+//@   modifies ks_pair
+//@   ensures[C08] err == nil ==> !old(ccPaused(f, ccID.ProtocolId, ccID.CounterpartyId)) && ccSetIs(f, ccID.ProtocolId, ccID.CounterpartyId, true)
+//@   ensures[C08] err != nil ==> ks_pair == old(ks_pair)
+//@   ensures[C08] old(ccPaused(f, ccID.ProtocolId, ccID.CounterpartyId)) ==> err != nil
+
+//@ func (f *Forwarder) SetUnpausedCrossChain(ctx, ccID) (err)
+//@   requires[inv] f != nil
+//@   modifies ks_pair
+//@   ensures[C08] err == nil ==> old(ccPaused(f, ccID.ProtocolId, ccID.CounterpartyId)) && ccSetIs(f, ccID.ProtocolId, ccID.CounterpartyId, false)
+//@   ensures[C08] err != nil ==> ks_pair == old(ks_pair)
+//@   ensures[C08] !old(ccPaused(f, ccID.ProtocolId, ccID.CounterpartyId)) ==> err != nil
+
+// The pause check of a transfer: an error whenever the protocol or the (protocol, counterparty) pair
+// is paused; nothing is modified.
+//@ func (f *Forwarder) ValidateForwarding(ctx, protocolID, counterpartyID) (err)
+//@   requires[inv] f != nil
+//@   ensures[C08] protoPaused(f, protocolID) || ccPaused(f, protocolID, counterpartyID) ==> err != nil
+
+// A transfer to a paused destination is refused before any controller runs: no controller invocation,
+// ledger and events untouched. The counterparty is the one the attributes name (cpOfIface: the same
+// function of the attributes that statistics record and that pause identifiers are validated against).
+//@ macro fwdAttr(p) = p.Forwarding.Attributes.cachedValue
+//@ func (f *Forwarder) HandlePacket(ctx, packet) (err)
+//@   requires[inv] f != nil && f.router != nil && f.bankKeeper != nil
+//@   modifies bank, events, fwdcalls
+//@   ensures[C08] packet != nil && packet.Forwarding != nil && packet.Forwarding.Attributes != nil && ref(fwdAttr(packet)) != 0 &&
+//@                (protoPaused(f, packet.Forwarding.ProtocolId) || ccPaused(f, packet.Forwarding.ProtocolId, cpOfIface(fwdAttr(packet)))) ==>
+//@                  err != nil && fwdcalls == old(fwdcalls) && bank == old(bank) && events == old(events)
+
+// Batches. At the level of the function a batch that fails half-way has applied a prefix; that the
+// whole message is then rolled back is the SDK's per-message cache (not provable here). What is
+// proved: a successful batch pauses (unpauses) every listed counterparty, pausing never unpauses
+// anything and unpausing never pauses anything, and no other collection is touched.
+//@ macro otherPairSetsUnchanged(f) = forall k int :: k != f.pausedCrossChains ==> ks_pair[k] == old(ks_pair[k])
+
+//@ func (f *Forwarder) pauseCrossChains(ctx, protocolID, counterpartyIDs) (err)
+//@   requires[inv] f != nil
+//@   modifies ks_pair
+//@   loop 0 invariant[C08] forall j int :: 0 <= j && j < idx ==> ccPaused(f, protocolID, counterpartyIDs[j])
+//@   loop 0 invariant[C08] forall q int, c string :: old(ccPaused(f, q, c)) ==> ccPaused(f, q, c)
+//@   loop 0 invariant[C08] otherPairSetsUnchanged(f)
+//@   ensures[C08] err == nil ==> forall j int :: 0 <= j && j < len(counterpartyIDs) ==> ccPaused(f, protocolID, counterpartyIDs[j])
+//@   ensures[C08] forall q int, c string :: old(ccPaused(f, q, c)) ==> ccPaused(f, q, c)
+//@   ensures[C08] otherPairSetsUnchanged(f)
+
+//@ func (f *Forwarder) unpauseCrossChains(ctx, protocolID, counterpartyIDs) (err)
+//@   requires[inv] f != nil
+//@   modifies ks_pair
+//@   loop 0 invariant[C08] forall j int :: 0 <= j && j < idx ==> !ccPaused(f, protocolID, counterpartyIDs[j])
+//@   loop 0 invariant[C08] forall q int, c string :: ccPaused(f, q, c) ==> old(ccPaused(f, q, c))
+//@   loop 0 invariant[C08] otherPairSetsUnchanged(f)
+//@   ensures[C08] err == nil ==> forall j int :: 0 <= j && j < len(counterpartyIDs) ==> !ccPaused(f, protocolID, counterpartyIDs[j])
+//@   ensures[C08] forall q int, c string :: ccPaused(f, q, c) ==> old(ccPaused(f, q, c))
+//@   ensures[C08] otherPairSetsUnchanged(f)
+
+//@ func (f *Forwarder) Pause(ctx, protocolID, counterpartyIDs) (err)
+//@   requires[inv] f != nil
+//@   modifies ks_i32, ks_pair
+//@   ensures[C08] err == nil && len(counterpartyIDs) == 0 ==> !old(protoPaused(f, protocolID)) && protoSetIs(f, protocolID, true) && ks_pair == old(ks_pair)
+//@   ensures[C08] err == nil && len(counterpartyIDs) > 0 ==> ks_i32 == old(ks_i32) && forall j int :: 0 <= j && j < len(counterpartyIDs) ==> ccPaused(f, protocolID, counterpartyIDs[j])
+//@   ensures[C08] len(counterpartyIDs) == 0 && err != nil ==> ks_i32 == old(ks_i32) && ks_pair == old(ks_pair)
+//@   ensures[C08] len(counterpartyIDs) == 0 && old(protoPaused(f, protocolID)) ==> err != nil
+
+//@ func (f *Forwarder) Unpause(ctx, protocolID, counterpartyIDs) (err)
+//@   requires[inv] f != nil
+//@   modifies ks_i32, ks_pair
+//@   ensures[C08] err == nil && len(counterpartyIDs) == 0 ==> old(protoPaused(f, protocolID)) && protoSetIs(f, protocolID, false) && ks_pair == old(ks_pair)
+//@   ensures[C08] err == nil && len(counterpartyIDs) > 0 ==> ks_i32 == old(ks_i32) && forall j int :: 0 <= j && j < len(counterpartyIDs) ==> !ccPaused(f, protocolID, counterpartyIDs[j])
+//@   ensures[C08] len(counterpartyIDs) == 0 && err != nil ==> ks_i32 == old(ks_i32) && ks_pair == old(ks_pair)
+//@   ensures[C08] len(counterpartyIDs) == 0 && !old(protoPaused(f, protocolID)) ==> err != nil
+
+// Message handlers.
+//@ func (s msgServer) PauseProtocol(ctx, msg) (resp, err)
+//@   requires[base] msg != nil && s.Forwarder != nil && s.Authorizer != nil && s.Forwarder.eventService != nil
+//@   modifies ks_i32, ks_pair, events
+//@   ensures[C08] err == nil ==> ks_pair == old(ks_pair) && exists p int :: !old(protoPaused(s.Forwarder, p)) && protoSetIs(s.Forwarder, p, true)
+
+//@ func (s msgServer) UnpauseProtocol(ctx, msg) (resp, err)
+//@   requires[base] msg != nil && s.Forwarder != nil && s.Authorizer != nil && s.Forwarder.eventService != nil
+//@   modifies ks_i32, ks_pair, events
+//@   ensures[C08] err == nil ==> ks_pair == old(ks_pair) && exists p int :: old(protoPaused(s.Forwarder, p)) && protoSetIs(s.Forwarder, p, false)
+
+//@ func (s msgServer) PauseCrossChains(ctx, msg) (resp, err)
+//@   requires[base] msg != nil && s.Forwarder != nil && s.Authorizer != nil && s.Forwarder.eventService != nil
+//@   modifies ks_i32, ks_pair, events
+//@   ensures[C08] err == nil && len(msg.CounterpartyIds) > 0 ==> ks_i32 == old(ks_i32) && exists p int :: forall j int :: 0 <= j && j < len(msg.CounterpartyIds) ==> ccPaused(s.Forwarder, p, msg.CounterpartyIds[j])
+
+//@ func (s msgServer) UnpauseCrossChains(ctx, msg) (resp, err)
+//@   requires[base] msg != nil && s.Forwarder != nil && s.Authorizer != nil && s.Forwarder.eventService != nil
+//@   modifies ks_i32, ks_pair, events
+//@   ensures[C08] err == nil && len(msg.CounterpartyIds) > 0 ==> ks_i32 == old(ks_i32) && exists p int :: forall j int :: 0 <= j && j < len(msg.CounterpartyIds) ==> !ccPaused(s.Forwarder, p, msg.CounterpartyIds[j])
+
+// Queries report the current sets.
+//@ func (s queryServer) IsProtocolPaused(ctx, req) (resp, err)
+//@   requires[base] s.Forwarder != nil
+//@   ensures[C08] err == nil ==> resp != nil && exists p int :: resp.IsPaused == protoPaused(s.Forwarder, p)
+
+//@ func (s queryServer) IsCrossChainPaused(ctx, req) (resp, err)
+//@   requires[base] s.Forwarder != nil
+//@   ensures[C08] err == nil ==> resp != nil && exists p int :: resp.IsPaused == ccPaused(s.Forwarder, p, req.CounterpartyId)
